@@ -155,3 +155,14 @@ func (m *TimeoutManager) VerifState() VerifTMState {
 
 	return s
 }
+
+// VerifResendTickerC returns the channel of the connection's resend ticker
+// (nil before the data phase): a ticker that still delivers ticks after Close
+// was left running.
+func (g *GoBackNConn) VerifResendTickerC() <-chan time.Time {
+	if g.resendTicker == nil {
+		return nil
+	}
+
+	return g.resendTicker.C
+}
